@@ -1,23 +1,59 @@
-"""Fault-injection plugin of the C20 check: `Boom.boom: <ExceptionName>` raises that exception
-from inside a plugin function call; `Boom.text: s` returns the string s; any other attribute
-does not exist (attribute lookup fails)."""
+"""Fault-injection plugin of the C20 check.
+
+`Boom.boom: <ExceptionName>` raises that exception from inside a plugin function call;
+`Boom.boom: {name: <ExceptionName>, msg: <index into HOSTILE>}` raises it with that text (the empty text
+makes an exception whose str() is empty); any attribute whose name starts with `boom` is such a function
+(so that the function name itself can carry hostile text: `Boom.boom{x}`); `Boom.text: s` returns the
+string s; `Boom.obj` returns an object no field may hold; any other attribute does not exist (attribute
+lookup fails).
+
+HOSTILE is the alphabet of text a recipe author controls and that ends up inside error messages and
+format / template operations: table names, nicknames, field names, variable names, option names, macro
+names, function names, file names, the text of exceptions."""
 import builtins
 
-from snowfakery.plugins import SnowfakeryPlugin
+try:
+    from snowfakery.plugins import SnowfakeryPlugin
+except ImportError:          # the harness process imports this module for HOSTILE only
+    SnowfakeryPlugin = object
+
+HOSTILE = [
+    "{", "}", "{}", "{0}", "{1}", "{x}", "{e}", "{{", "}}", "{{}}", "{e.__class__}", "{0!r}", "{:>10}", "{e!s:{e}}",
+    "a{b}c", "}{", "{ }", "{0}{}", "${{", "${{x}}", "<<x>>", "${% if %}",
+    "%", "%s", "%d", "%(x)s", "%%", "100%", "%(e)s",
+    "\\", "\\n", "\\{", "\\x", "C:\\path\\{e}",
+    "\"", "'", "`", "'{}'", "\"{e}\"",
+    "line\nbreak", "tab\there", "cr\rlf", " lead", "trail ", "  ",
+    "é", "名前", "😀", "a\u0301", "\u202eabc", "Ω{Ω}",
+    "#", ":", "- x", "a: b", "[x]", "{a: b}", "*a", "&a", "!tag", "|", ">", "~", "null", "None", "true", "5", "1.5",
+    "..", "a.b", "a/b", "/", "id", "__x", "x" * 300, "{" * 40, "%s" * 40,
+    "\x07", "\x1b[31m", "\x7f", "a\x00b",
+    "sqlite_sequence", "SQLite_x", "a\"b", "x\" (id); --", "select", "a;b", "a]b", "[a]",
+    "$", "$x", "${x}", "$$", "$(x)", "(", "a(b", "*", "+?", "^$", "\\1", "(?P<e>", "%(", "%c", "%5", "{!}", "{:}", "{:{}}",
+    "",
+]
 
 
-def make_exc(name):
+def make_exc(name, msg=None):
+    text = ("injected " + name) if msg is None else (HOSTILE[msg] if isinstance(msg, int) else str(msg))
     if name == "DGE":
         from snowfakery.data_gen_exceptions import DataGenError
-        return DataGenError("injected recipe error")
+        return DataGenError(text if text.strip() else "injected recipe error")
     cls = getattr(builtins, name)
-    return cls("injected " + name)
+    return cls(text) if text else cls()
 
 
 class Boom(SnowfakeryPlugin):
     class Functions:
-        def boom(self, name="KeyError"):
-            raise make_exc(str(name))
+        def __getattr__(self, attr):
+            if attr.startswith("boom"):
+                def boom(name="KeyError", msg=None):
+                    raise make_exc(str(name), msg)
+                return boom
+            raise AttributeError(attr)
 
         def text(self, s="abc"):
             return str(s)
+
+        def obj(self, *a):
+            return {"not": "a field value"}.keys()
